@@ -399,8 +399,11 @@ def _patcher_anchors(run: Run) -> None:
             return (f"C19: the code of {modname}:{path} changed (digest {got}, replica derived from {want}): "
                     f"the checker's replica of that rule must be re-derived before the generator's inputs can be judged")
     p = run.src.need(DOCS + "parse")
-    if "exec(compiled, {}, context)" not in ast.unparse(p.tree):
-        raise AnalysisError("C19: docs/parse.py no longer runs exec(compiled, {}, context): rule D1 must be re-derived")
+    # rule D1 rests on HOW the patched module is executed: exec(<code>, {}, <a separate mapping>) - empty globals, names land in the locals mapping, so
+    # nested scopes cannot see module-level names. Whatever the two variables are called.
+    execs = [c for c in ast.walk(p.tree) if isinstance(c, ast.Call) and dotted(c.func) == "exec"]
+    if not (execs and all(len(c.args) == 3 and not c.keywords and isinstance(c.args[1], ast.Dict) and not c.args[1].keys and not isinstance(c.args[2], ast.Dict) for c in execs)):
+        raise AnalysisError("C19: docs/parse.py no longer runs exec(<code>, {}, <context>): rule D1 must be re-derived")
     return None
 
 
